@@ -565,6 +565,51 @@ func (g *gen) sessClose() {
 		})
 	}
 	g.p("Definition sc_serve_reads_context_every_turn : bool := %v.\n", inLoop && !outside)
+
+	// closeSession: closing is final even if the write fails — the bit is tested
+	// and set in ONE critical section of the state mutex, and that section ends
+	// before the closing element is written (statement order from the AST):
+	// Lock < read of the bit < `state |= OutputStreamClosed` < Unlock < write.
+	setBeforeWrite := false
+	for _, fd := range fds {
+		if scFuncName(fd) != "Session.closeSession" {
+			continue
+		}
+		_, chains, pos := scCalls(fd.Body)
+		var lockP, unlockP, writeP, setP token.Pos
+		for i, c := range chains {
+			switch {
+			case len(c) >= 2 && c[len(c)-2] == "stateMutex" && c[len(c)-1] == "Lock" && lockP == token.NoPos:
+				lockP = pos[i]
+			case len(c) >= 2 && c[len(c)-2] == "stateMutex" && c[len(c)-1] == "Unlock" && unlockP == token.NoPos:
+				unlockP = pos[i]
+			case len(c) == 2 && c[0] == "intstream" && c[1] == "Close" && writeP == token.NoPos:
+				writeP = pos[i]
+			}
+		}
+		var reads []token.Pos
+		ast.Inspect(fd.Body, func(m ast.Node) bool {
+			if as, is := m.(*ast.AssignStmt); is && as.Tok == token.OR_ASSIGN && len(as.Rhs) == 1 && len(scMentions(as.Rhs[0], "OutputStreamClosed")) > 0 {
+				if setP == token.NoPos {
+					setP = as.Pos()
+				}
+				return false
+			}
+			if id, is := m.(*ast.Ident); is && id.Name == "OutputStreamClosed" {
+				reads = append(reads, id.Pos())
+			}
+			return true
+		})
+		readInSection := false
+		for _, p := range reads {
+			if p > lockP && p < setP {
+				readInSection = true
+			}
+		}
+		setBeforeWrite = lockP != token.NoPos && setP != token.NoPos && unlockP != token.NoPos && writeP != token.NoPos &&
+			readInSection && lockP < setP && setP < unlockP && unlockP < writeP
+	}
+	g.p("Definition sc_closesession_sets_bit_before_write : bool := %v.\n", setBeforeWrite)
 	g.p("Definition sc_setclosedeadline_fresh_context : bool := %v.\n", fresh && nctx > 0)
 	g.p("Definition sc_setclosedeadline_cancels_previous : bool := %v.\n", savesOld && callsOld)
 	g.p("Definition sc_setclosedeadline_zero_is_no_deadline : bool := %v.\n", zero)
